@@ -2,6 +2,7 @@ package main
 
 import (
 	"fmt"
+	"sort"
 	"strings"
 
 	"golang.org/x/tools/go/ssa"
@@ -44,10 +45,11 @@ func callString(ci ssa.CallInstruction) string {
 }
 
 type effect struct {
-	Ins   ssa.Instruction
+	Ins   ssa.Instruction // where it happens in the analysed function (the call site for lifted effects)
 	Str   string
 	conds []string
 	have  bool
+	Inner ssa.Instruction // for an effect lifted out of a helper: the instruction inside the helper
 }
 
 func (e *effect) Conds() []string {
@@ -64,6 +66,26 @@ func effectsOf(fn *ssa.Function) []*effect {
 		if s := effectString(ins); s != "" {
 			out = append(out, &effect{Ins: ins, Str: s})
 		}
+		// look through helpers that did not exist on the reference tree: their effects happen at the call site
+		ci, ok := ins.(*ssa.Call)
+		if !ok || liftDepth >= maxLiftDepth {
+			return
+		}
+		callee := transparentCallee(ci)
+		if callee == nil || callee == fn {
+			return
+		}
+		outer := condStrings(ctrlConds(ins.Block()))
+		withCallEnv(ci, callee, func() {
+			for _, e := range effectsOf(callee) {
+				if strings.HasPrefix(e.Str, "return ") {
+					continue
+				}
+				conds := append(append([]string{}, outer...), e.Conds()...)
+				sort.Strings(conds)
+				out = append(out, &effect{Ins: ins, Str: e.Str, conds: conds, have: true, Inner: e.Ins})
+			}
+		})
 	})
 	return out
 }
